@@ -338,11 +338,17 @@ func (x *btCtx) checkWrapper(relT, relB string) {
 				if e.Kind == EvCall && e.Callee != nil && e.Callee.Name() == "ReplaceOrInsert" {
 					ins++
 					if len(e.Args) < 2 || e.Args[1].Key() != t.Params[2].Key() {
+						if ok {
+							c.violated("C03.update", name, e.Pos, "the item inserted is not the caller's new item", c.witness(t, len(t.Events)-1)...)
+						}
 						ok = false
 					}
 				}
 			}
 			if del == nil || len(del.Args) < 2 || del.Args[1].Key() != t.Params[1].Key() {
+				if ok {
+					c.violated("C03.update", name, fn.Pos(), fmt.Sprintf("a path of %s does not remove the old item first (%d insert(s) on it): the new item is stored although nothing established that the old one was in the tree — an update of an absent key inserts it", m, ins), c.witness(t, len(t.Events)-1)...)
+				}
 				ok = false
 				continue
 			}
@@ -360,6 +366,9 @@ func (x *btCtx) checkWrapper(relT, relB string) {
 					c.violated("C03.update", name, fn.Pos(), "Update deleted the old item but does not insert the new one exactly once and report success: the item is lost", c.witness(t, len(t.Events)-1)...)
 				}
 				if !found && !missing {
+					if ok {
+						c.violated("C03.update", name, fn.Pos(), "Update returns without having examined whether the old item was in the tree", c.witness(t, len(t.Events)-1)...)
+					}
 					ok = false
 				}
 			} else {
